@@ -24,6 +24,7 @@ def conc_part(ctx):
     except ImportError:
         return
     conc.c14_concurrent(ctx)
+    conc.conc_sessions(ctx)
 
 
 Unit([("ids", gen_ids, 2), ("mixed", scen.gen_mixed, 1)], (oracles.o_c14, oracles.o_c04) + COMMON,
